@@ -547,6 +547,18 @@ func (c *Ctx) VarLen() []core.Ob {
 // with a constant whose true edge returns an error, the maximum number of
 // iterations that reach the ReadByte call.
 func readCap(fn *ssa.Function) (int64, string) {
+	return readCapBound(fn, nil, 0)
+}
+
+// readCapBound: bind gives the constants the caller passes for parameters of fn
+// (the decode loop shared by VarInt and VarLong takes its limit as an argument).
+func readCapBound(fn *ssa.Function, bind map[ssa.Value]int64, depth int) (int64, string) {
+	constIntVal := func(v ssa.Value) (int64, bool) {
+		if k, ok := bind[stripConv(v)]; ok {
+			return k, true
+		}
+		return constIntVal(v)
+	}
 	for _, b := range fn.Blocks {
 		if len(b.Instrs) == 0 {
 			continue
@@ -609,6 +621,33 @@ func readCap(fn *ssa.Function) (int64, string) {
 			return k + extra, ""
 		default:
 			return 0, "the length guard is not an upper-bound test of the byte counter"
+		}
+	}
+	// the loop may live in a helper that is handed the limit
+	if depth < 2 {
+		for _, b := range fn.Blocks {
+			for _, in := range b.Instrs {
+				ci, ok := in.(ssa.CallInstruction)
+				if !ok {
+					continue
+				}
+				g := ci.Common().StaticCallee()
+				if g == nil || len(g.Blocks) == 0 || g.Pkg != fn.Pkg {
+					continue
+				}
+				nb := map[ssa.Value]int64{}
+				for i, a := range ci.Common().Args {
+					if k, ok := constIntVal(a); ok && i < len(g.Params) {
+						nb[g.Params[i]] = k
+					}
+				}
+				if len(nb) == 0 {
+					continue
+				}
+				if n, why := readCapBound(g, nb, depth+1); why == "" {
+					return n, ""
+				}
+			}
 		}
 	}
 	return 0, "no guard comparing the byte counter with a constant found in the decode loop"
